@@ -73,6 +73,22 @@ class Helpers:
         self.fail = {}
         self._cache = {}
         self.pow = self.exp = None
+        self.cbrt_rel = None
+        try:
+            key = [k for k, f in self.crate.fns.items() if f['def'].split('::')[-1] == 'cbrtf' and not f.get('closure') and k.split('::')[-1] == 'cbrtf']
+            if len(key) == 1:
+                formals, body, _ = summary(it, key[0])
+                if body.op == 'call:libm_cbrt' and len(body.args) == 1 and body.args[0] is formals[0]:
+                    self.kind['cbrtf'] = 'libm'; self.cbrt_rel = 2.0 ** -23            # A-libm: one ulp
+                else:
+                    c = approx.cbrtf_model(self.crate, formals, body)
+                    if c['total_rel'] <= 2.0 ** -26:
+                        self.kind['cbrtf'] = 'poly'
+                        self.cbrt_rel = 2.0 ** -24 + c['total_rel'] * (1 + 2.0 ** -23)       # correctly rounded f64 iterate: half an ulp + its own error
+                    else:
+                        self.fail['cbrtf'] = 'cbrtf iterate not certified to 2^-26'
+        except Unsupported as ex:
+            self.fail['cbrtf'] = f"structure of cbrtf not recognised: {ex}"
         for name in ('powf', 'expf'):
             key = [k for k, f in self.crate.fns.items() if f['def'].split('::')[-1] == name and not f.get('closure') and k.split('::')[-1] == name]
             if len(key) != 1:
@@ -424,8 +440,8 @@ def errprop(e, env, H: Helpers, lemmas=None, total=False):
         elif op == 'call:copysign':
             (Va, Ea, Ra), (Vb, Eb, Rb) = rec(n.args[0]), rec(n.args[1])
             m = Va.abs(); mr = Ra.abs()
-            sg = lambda q, S: q if S.lo >= 0 else (-q if S.hi < 0 else q.hull(-q))
-            same = (Vb.lo >= 0 and Rb.lo >= 0) or (Vb.hi < 0 and Rb.hi < 0) or _zero(Eb)
+            sg = lambda q, S: q if S.lo >= 0 else (-q if S.hi <= 0 else q.hull(-q))       # (a zero sign operand only matters when the magnitude is zero too - callers' curves vanish at 0)
+            same = (Vb.lo >= 0 and Rb.lo >= 0) or (Vb.hi <= 0 and Rb.hi <= 0) or _zero(Eb)
             # if the computed and the ideal sign operand can differ in sign, the results can differ by |a'| + |a|
             r = fin(sg(m, Vb), sym(Ea.mag) if same else sym(up(m.mag + mr.mag)), sg(mr, Rb))
         elif op == 'call:abs':
@@ -468,6 +484,22 @@ def errprop(e, env, H: Helpers, lemmas=None, total=False):
             if name == 'expf':
                 V, E, D = H.expf(Va, Ea, Ra)
                 r = fin(V, E, D)
+            elif name == 'cbrtf':
+                if H is None or H.cbrt_rel is None:
+                    raise Unsupported((H.fail.get('cbrtf') if H is not None else None) or 'no certified cbrtf error')
+                if Va.lo < 0 or Ra.lo < 0:
+                    raise Unsupported('cbrtf of a possibly negative argument')
+                from .ival import i_cbrt
+                V = i_cbrt(Va); D0 = i_cbrt(Ra)
+                if Va.lo > 0 and not _zero(Ea):
+                    q = ONE + Ea / Va
+                    if q.lo <= 0: raise Unsupported('argument error as large as the argument')
+                    sh = V * (i_cbrt(q) - ONE)
+                elif _zero(Ea):
+                    sh = ZERO
+                else:
+                    sh = D0 - V
+                r = fin(V, sh + sym(up(H.cbrt_rel * D0.mag)), D0 * I(1 - H.cbrt_rel, 1 + H.cbrt_rel))
             else: raise Unsupported(f"error propagation through {name}")
         else:
             raise Unsupported(f"error propagation through {op}")
